@@ -20,11 +20,35 @@ import (
 var actionName = map[uint32]string{0x00000000: "kill_thread", 0x80000000: "kill_process", 0x00030000: "trap", 0x00050000: "errno",
 	0x7ff00000: "trace", 0x7ffc0000: "log", 0x7fff0000: "allow"}
 
+// yamlCase is the letter case in which renderYAML writes action and operation names (they are
+// documented as case-insensitive): 0 as the constants are spelled, 1 lower, 2 upper, 3 alternating.
+var yamlCase int
+
+func spell(s string) string {
+	switch yamlCase {
+	case 1:
+		return strings.ToLower(s)
+	case 2:
+		return strings.ToUpper(s)
+	case 3:
+		b := []byte(s)
+		for i := range b {
+			if i%2 == 0 {
+				b[i] = strings.ToUpper(string(b[i]))[0]
+			} else {
+				b[i] = strings.ToLower(string(b[i]))[0]
+			}
+		}
+		return string(b)
+	}
+	return s
+}
+
 func renderYAML(p *vd.Policy) string {
 	var b strings.Builder
-	fmt.Fprintf(&b, "seccomp:\n  default_action: %s\n  syscalls:\n", actionName[p.Default])
+	fmt.Fprintf(&b, "seccomp:\n  default_action: %s\n  syscalls:\n", spell(actionName[p.Default]))
 	for _, g := range p.Groups {
-		fmt.Fprintf(&b, "  - action: %s\n", actionName[g.Action])
+		fmt.Fprintf(&b, "  - action: %s\n", spell(actionName[g.Action]))
 		if len(g.Names) > 0 {
 			b.WriteString("    names:\n")
 			for _, n := range g.Names {
@@ -36,7 +60,7 @@ func renderYAML(p *vd.Policy) string {
 			for _, nc := range g.WithConds {
 				fmt.Fprintf(&b, "    - name: %s\n      arguments:\n", nc.Name)
 				for _, c := range nc.Conds {
-					fmt.Fprintf(&b, "      - argument: %d\n        operation: %s\n        value: %d\n", c.Arg, c.Op, c.Val)
+					fmt.Fprintf(&b, "      - argument: %d\n        operation: %s\n        value: %d\n", c.Arg, spell(c.Op), c.Val)
 				}
 			}
 		}
@@ -110,7 +134,12 @@ func sandboxStream(sum *Summary, model *vd.Model, n int, seed int64) {
 		policyFile := filepath.Join(work, fmt.Sprintf("p%d.yml", i))
 		marker := filepath.Join(work, fmt.Sprintf("ran%d", i))
 		os.Remove(marker)
+		if kind == "valid" {
+			// (the malformed kinds below edit the canonical text)
+			yamlCase = []int{0, 0, 1, 2, 3}[rng.Intn(5)]
+		}
 		yml := renderYAML(&c.Policy)
+		yamlCase = 0
 		expectStart := false
 		switch kind {
 		case "valid":
